@@ -935,7 +935,7 @@ Definition hrow_ok (r : wkind * list call * list obs) : bool :=
   match r with (k, cs, os) => list_eqb obs_eqb (snd (run_calls lkp tag_of cs (enc_new k))) os end.
 Definition ov_eqb (a b : obs * view) : bool := obs_eqb (fst a) (fst b) && view_eqb (snd a) (snd b).
 Definition srow_ok (r : list (list msg) * list nat * list (list (obs * view))) : bool :=
-  match r with (work, sched, out) => list_eqb (list_eqb ov_eqb) (run_threads tbl tag_of 24 100000 work sched) out end.
+  match r with (work, sched, out) => list_eqb (list_eqb ov_eqb) (run_threads tbl tag_of 24 2500 work sched) out end.
 `
 
 // ---------------------------------------------------------------- children
